@@ -4,6 +4,7 @@ import VlsModel.Gen.FnEnforceVal
 import VlsModel.Gen.FnNodePay
 import VlsModel.Gen.FnApproverC06
 import VlsModel.Gen.FnNodeApprove
+import VlsModel.Gen.FnNodeAdd
 import VlsModel.Lemmas.FnGen
 import VlsModel.Lemmas.PaymentsFn
 import VlsModel.Lemmas.PaymentsFnSummary
@@ -1245,4 +1246,29 @@ theorem C06_fn_allowlist_contains_payee {H S X P : Type} [DecidableEq S] [Decida
   · rfl
   · unfold Gen.FnNodeApprove.Node.allowlist_contains_payee Gen.FnNodeApprove.Node.get_state
     simp [List.contains_iff_mem]
+/-! ## Round 10 (b4): where the *approved amount* of a hash comes from (area `NodeAdd`, `translate/fn_targets/NodeAdd.b4.json`)
+
+`Node::payment_state_from_invoice` / `payment_state_from_keysend` build the `PaymentState` that `add_invoice` /
+`add_keysend` register (tied in `Props/C12Fn.lean`: `C12_fn_add_invoice`, `C12_fn_add_keysend` — registration only through
+the velocity control, a shortcut for an amount already registered, nothing on refusal = the model's `Node.approve`).  The
+"approved amount" of the statement is `amount_msat` of that state: the invoice's `amount_milli_satoshis()` / the amount of
+the keysend request, never fulfilled at registration. -/
+section NodeAdd
+open VlsModel.Gen.FnNodeAdd (Node PaymentState PaymentType)
+
+theorem C06_fn_payment_state_from_invoice {Invoice PaymentHash PublicKey Duration : Type}
+    (ph : Invoice → PaymentHash) (ihf : Invoice → List Nat) (amt : Invoice → Nat) (payee : Invoice → PublicKey)
+    (dse exp : Invoice → Duration) (inv : Invoice) :
+    Node.payment_state_from_invoice ph ihf amt payee dse exp inv
+      = .ok (ph inv, { invoice_hash := ihf inv, amount_msat := amt inv, payee := payee inv, duration_since_epoch := dse inv,
+                        expiry_duration := exp inv, is_fulfilled := false, payment_type := PaymentType.Invoice }, ihf inv) := rfl
+
+theorem C06_fn_payment_state_from_keysend {PublicKey PaymentHash Duration : Type}
+    (bytes : PaymentHash → List Nat) (fromSecs : Nat → Duration) (payee : PublicKey) (h : PaymentHash) (amount : Nat)
+    (now : Duration) :
+    Node.payment_state_from_keysend bytes fromSecs payee h amount now
+      = .ok ({ invoice_hash := bytes h, amount_msat := amount, payee := payee, duration_since_epoch := now,
+               expiry_duration := fromSecs 60, is_fulfilled := false, payment_type := PaymentType.Keysend }, bytes h) := rfl
+end NodeAdd
+
 end VlsModel.Props.C06Fn
